@@ -438,7 +438,10 @@ def noise_scan_here(plan, keep_events=False):
         nm = PauliErrorModel(rx, ry, rz, deformation_name=plan['name'],
                              deformation_kwargs=dict(plan['kwargs']))
         base = {'X': p * rx, 'Y': p * ry, 'Z': p * rz}
-        for idx, (cname, size) in enumerate(plan['codes']):
+        # the scan is repeated: whether a freed object's address is reused
+        # depends on allocator state, several passes make it near certain
+        seq = list(plan['codes']) * plan.get('passes', 3)
+        for idx, (cname, size) in enumerate(seq):
             cls = code_class(cname)
             try:
                 code = cls(*size)
@@ -762,6 +765,9 @@ def aggregate(agg, r):
 
 def signature(plan, v):
     d = v.get('detail') or {}
+    if plan.get('kind') == 'noise_scan':
+        # which code of the scan shows it depends on allocator state
+        return {'class': v['class'], 'kind': 'noise_scan'}
     sig = {'class': v['class'], 'code': d.get('code')}
     if 'exc' in d:
         sig['exc'] = d['exc']
